@@ -139,6 +139,9 @@ enum Act {
     Input { input: InputSpec, provider: Option<ProviderSpec> },
     /// POST /threads/{id}/compaction-auto (router only)
     Job { stride: u64, max_new: u64 },
+    /// S6: POST /sessions, then POST /sessions/{id}/input TWICE (router only, no provider); `wait` = the
+    /// second input is sent after the first run has finished
+    Input2 { first: InputSpec, second: InputSpec, wait: bool },
 }
 
 #[derive(Clone, Debug, PartialEq, Serialize, Deserialize)]
@@ -404,6 +407,8 @@ struct Ids {
     planned: u64,
     /// HTTP status / error of the request that started it
     status: u16,
+    /// Input2: status of the second input
+    status2: u16,
 }
 
 struct IdMap(BTreeMap<String, u64>);
@@ -638,7 +643,7 @@ fn act_done(a: &Act, id: &Ids, log: &[Line]) -> bool {
             Some(s) => log.iter().any(|l| l.ty == "continuity_run_ended" && l.s("run_session_id") == *s),
             None => true,
         },
-        Act::Input { .. } => true, // counted through the snapshot hook
+        Act::Input { .. } | Act::Input2 { .. } => true, // counted through the snapshot hook
         Act::Job { .. } => match &id.job {
             Some(j) => log.iter().any(|l| l.ty == "continuity_job_ended" && l.s("job_id") == *j),
             None => true,
@@ -680,7 +685,7 @@ async fn exec_case(c: &Case, root: &Path) -> Exec {
     for (i, a) in c.acts.iter().enumerate() {
         let p = match a {
             Act::Post { provider, .. } | Act::Input { provider, .. } => provider.as_ref(),
-            Act::Job { .. } => None,
+            Act::Job { .. } | Act::Input2 { .. } => None,
         };
         match p {
             Some(p) => {
@@ -733,7 +738,7 @@ async fn exec_case(c: &Case, root: &Path) -> Exec {
                     runs_started += 1;
                     id.status = 202;
                 }
-                Act::Job { .. } => {}
+                Act::Job { .. } | Act::Input2 { .. } => {}
             }
             ids.push(id);
             if !c.parallel {
@@ -779,6 +784,28 @@ async fn exec_case(c: &Case, root: &Path) -> Exec {
                     id.status = st;
                     id.sid = Some(sid);
                     if st == 202 {
+                        runs_started += 1;
+                    }
+                }
+                Act::Input2 { first, second, wait } => {
+                    let (_, v) = call_json(&app, req("POST", "/sessions", None)).await;
+                    let sid = v.get("session_id").and_then(|x| x.as_str()).unwrap_or("").to_string();
+                    let (st, _) = call_json(&app, req("POST", &format!("/sessions/{sid}/input"), Some(json!({"input": input_text(first, i)})))).await;
+                    id.status = st;
+                    id.sid = Some(sid.clone());
+                    if st == 202 {
+                        runs_started += 1;
+                    }
+                    if *wait {
+                        let mut ids2 = ids.clone();
+                        ids2.push(id.clone());
+                        if let Some(h) = wait_done(&data, &c.acts[..ids2.len()], &ids2, snaps_before, runs_started).await {
+                            hang = Some(h);
+                        }
+                    }
+                    let (st2, _) = call_json(&app, req("POST", &format!("/sessions/{sid}/input"), Some(json!({"input": input_text(second, i + 50)})))).await;
+                    id.status2 = st2;
+                    if st2 == 202 {
                         runs_started += 1;
                     }
                 }
@@ -911,6 +938,16 @@ fn case_term(c: &Case, ex: &Exec, cal: &Calib) -> Option<String> {
                     return None;
                 }
                 let t = format!("AInput {} {} {}", cfg_term(provider.as_ref()), 100 + i, input_term(input, provider.as_ref(), &ex.preds[i], cal));
+                let o = ex.log.iter().filter(|l| l.is_session() && l.stream == *sid).collect();
+                (t, o)
+            }
+            Act::Input2 { first, .. } => {
+                // a second input on a started session must be refused; the session is the first input's run
+                let Some(sid) = &id.sid else { return None };
+                if id.status != 202 || id.status2 == 202 {
+                    return None;
+                }
+                let t = format!("AInput {} {} {}", cfg_term(None), 100 + i, input_term(first, None, &[], cal));
                 let o = ex.log.iter().filter(|l| l.is_session() && l.stream == *sid).collect();
                 (t, o)
             }
@@ -1079,6 +1116,9 @@ fn corpus() -> Vec<Case> {
         Case { engine: true, parallel: false, acts: vec![Act::Post { input: InputSpec::Prompt, provider: Some(p(vec![text_req(vec![Sse::Delta])], false, Choice::Invalid)) }] },
         // parallel runs on one thread + a job
         Case { engine: false, parallel: true, acts: vec![post(vec![text_req(vec![Sse::Created { id: true }, Sse::Call(Tool::BashEcho)]), text_req(vec![Sse::Delta])]), post(vec![text_req(vec![Sse::Delta])]), Act::Post { input: InputSpec::Prompt, provider: None }, Act::Job { stride: 1, max_new: 2 }] },
+        // S6: two inputs on one session
+        Case { engine: false, parallel: false, acts: vec![Act::Input2 { first: InputSpec::Prompt, second: InputSpec::Prompt, wait: true }] },
+        Case { engine: false, parallel: false, acts: vec![Act::Input2 { first: InputSpec::ToolEnv { tool: Tool::BashEcho, tmo: 0 }, second: InputSpec::Prompt, wait: false }, Act::Post { input: InputSpec::Prompt, provider: None }] },
         // tool-call limit: 3 rounds of 12 calls
         Case { engine: false, parallel: false, acts: vec![post((0..4).map(|_| text_req(std::iter::once(Sse::Created { id: true }).chain((0..12).map(|_| Sse::Call(Tool::Ls))).collect())).collect())] },
     ]
@@ -1148,6 +1188,7 @@ fn label(c: &Case) -> Vec<String> {
                 }
             }
             Act::Job { .. } => v.push("job".into()),
+            Act::Input2 { wait, .. } => v.push(format!("double-input-wait={wait}")),
         }
     }
     v.sort();
